@@ -1161,6 +1161,7 @@ namespace awkward {
           reinterpret_cast<uint8_t*>(data()),
           bytelength());
         util::handle_error(err, classname(), identities_.get());
+        byteoffset = 0;
       }
     }
     IdentitiesPtr identities = identities_;
